@@ -18,8 +18,10 @@ and with fragment markers anywhere between them; the lines are those of the refe
 concatenated text, and the error is the reference's error.  The proof is a refinement in three layers
 (H2T/Lemmas/Greedy.lean: the piece loop of `flush_word_hard_wrap` against character-by-character filling;
 GreedyWord.lean: pieces, fragment markers and word placement; GreedyMain.lean: characters, parts, paragraph).
-The hypothesis that every word has positive display width is the property's own domain and is necessary: the
-machine does not flush a word of width 0 at the following space (`zero_width_word_differs`).
+The hypothesis that every word has positive display width is the property's own domain.  It used to be necessary for a
+bad reason — the machine did not flush a word of width 0 at the following space; that was a genuine defect, repaired by
+`fix:` 33c7307 (`zero_width_word_kept_apart`).  It is still needed at the start of a line, where the machine does not
+separate a word without width from the next word (known finding `C04-zero-width-word-at-line-start`).
 Width 0 is covered by `wrap_zero_width`.
 
 Also proved: every emitted line fits the width (all inputs, all tags, all modes); whitespace runs collapse and any
